@@ -1,6 +1,7 @@
 import RimeModel.C18.PathThms
 import RimeModel.C18.ValueThms
 import RimeModel.C18.BytesThms
+import RimeModel.C18.Ref
 /-!
 # C18 — config trees survive save and load; getters read back what setters wrote
 
@@ -278,6 +279,84 @@ example : parseDoc (emitDoc .safe (.map [([97], .list [.map [([113], .scalar [12
       .list [.list [.null, .scalar [], .map []]]]), ([98], .scalar [97, 32, 98])])) =
     some (.map [([97], .list [.map [([113], .scalar [120, 10, 121, 10]), ([122], .scalar [49])],
       .list [.list [.scalar [], .map []]]]), ([98], .scalar [97, 32, 98])]) := by rfl
+
+/-! ## the other routes to the same tree: `ConfigItemRef`, `Config::Is*`, the C API iterators -/
+
+/-- **get-after-set through `ConfigItemRef`.** After `(*config)[s₁]…[sₙ] = v` (map keys and list indexes in any mix, on ANY
+tree: `operator[]` turns whatever it is applied to into the container the step needs, `SetAt` pads with nulls) reading the same
+reference returns `v`. -/
+theorem ref_get_set (t : Cfg) (steps : List RStep) (v : Cfg) : refGet (refSet t steps v) steps = v := by
+  induction steps generalizing t with
+  | nil => rfl
+  | cons s rest ih =>
+    cases s with
+    | key k => simp [refSet, refGet, mapGet_mapSet_same, ih]
+    | idx i => simp [refSet, refGet, listGet_listSetAt_same, ih]
+
+/-- … and a sibling key of the first step keeps its value (frame at the top level of the reference). -/
+theorem ref_set_frame_key (t : Cfg) (k j : Bytes) (rest : List RStep) (v : Cfg) (h : j ≠ k) :
+    refGet (refSet t (.key k :: rest) v) [.key j] = refGet (.map (vivMap t)) [.key j] := by
+  simp [refSet, refGet, mapGet_mapSet_other _ _ _ _ h]
+
+theorem refGet_null (steps : List RStep) : refGet .null steps = .null := by
+  cases steps with
+  | nil => rfl
+  | cons s rest => cases s <;> rfl
+
+theorem listGet_nil (i : Nat) : listGet [] i = .null := by simp [listGet]
+
+/-- **forming a reference does not change what it reads.** `operator[]` may replace nodes on the way by empty containers
+(auto-vivification), but the value read through the reference is the value a strict walk of the original tree finds — null where
+the walk leaves the tree. -/
+theorem ref_viv_read (t : Cfg) (steps : List RStep) : refGet (refViv t steps) steps = refGet t steps := by
+  induction steps generalizing t with
+  | nil => rfl
+  | cons s rest ih =>
+    cases s with
+    | key k =>
+      cases rest with
+      | nil => cases t <;> simp [refViv, refGet, vivMap, mapGet]
+      | cons r rs =>
+        cases t <;> simp [refViv, refGet, vivMap, mapGet, mapGet_mapSet_same, ih, refGet_null]
+    | idx i =>
+      cases rest with
+      | nil => cases t <;> simp [refViv, refGet, vivList, listGet]
+      | cons r rs =>
+        cases t <;> simp [refViv, refGet, vivList, listGet_listSetAt_same, ih, refGet_null, listGet_nil]
+
+/-- `Config::IsNull/IsValue/IsList/IsMap(path)` on a path that leads to a node: exactly the flag of the node's type (the four
+answer `true` together only where the path leads nowhere). -/
+theorem is_flags_onehot (root : Cfg) (p : Bytes) (h : (traverse root p).isNull = false) :
+    isFlags root p = refFlags (traverse root p) := by
+  unfold isFlags refFlags
+  cases hh : traverse root p <;> simp_all [Cfg.isNull]
+
+/-- the list iterator of the C API yields the keys `@i, @i+1, …` in order, one per element -/
+theorem iter_list_keys (pre : Bytes) (xs : List Cfg) (i : Nat) :
+    (iterListFrom pre xs i).map (·.1) = (List.range xs.length).map (fun j => formatListIndex (i + j)) := by
+  induction xs generalizing i with
+  | nil => simp [iterListFrom]
+  | cons x xs ih =>
+    simp only [iterListFrom, List.map_cons, List.length_cons, List.range_succ_eq_map, List.map_map]
+    rw [ih (i + 1)]
+    simp [Function.comp_def, Nat.add_assoc, Nat.add_comm 1]
+
+/-- … and every path it yields is the prefix followed by the key -/
+theorem iter_list_paths (pre : Bytes) (xs : List Cfg) (i : Nat) :
+    ∀ kp ∈ iterListFrom pre xs i, kp.2 = pre ++ kp.1 := by
+  induction xs generalizing i with
+  | nil => simp [iterListFrom]
+  | cons x xs ih =>
+    intro kp h
+    simp only [iterListFrom, List.mem_cons] at h
+    rcases h with h | h
+    · subst h; rfl
+    · exact ih (i + 1) kp h
+
+-- non-vacuity: a reference through a scalar vivifies it, reads null, and the assignment is read back
+example : (refGet (refViv (.map [([97], .scalar [120])]) [.key [97], .key [98]]) [.key [97], .key [98]]).isNull = true := by decide
+example : (refViv (.map [([97], .scalar [120])]) [.key [97], .key [98]]).beq (.map [([97], .map [])]) = true := by decide
+example : (iterList (.map [([108], .list [.scalar [120], .null])]) [108]).map (·.length) = some 2 := by decide
 
 /-! non-vacuity of the path theorems: a concrete tree, an `@before` insertion and a stable key -/
 example : Stable [64, 55] := ⟨7, fun _ => rfl⟩
